@@ -688,3 +688,37 @@ def nan_rejected(ctx, cls, what):
                     after = {k: getattr(m, k) for k in before}
                     ok = all(float(before[k]) == float(after[k]) for k in before)
     ctx.ensure("NaN-rejected,state-unchanged", ok)
+
+
+@contract(P, "CovModel.bounds.setters/bounds-owned-by-the-model;current-value-stays-inside",
+          params=[{"which": w, "via": v} for w in ("var", "len_scale", "nugget", "anis", "alpha")
+                  for v in ("property", "set_arg_bounds") if not (w == "alpha" and v == "property")],
+          functions=["covmodel/base.py:CovModel.var_bounds", "covmodel/base.py:CovModel.len_scale_bounds",
+                     "covmodel/base.py:CovModel.nugget_bounds", "covmodel/base.py:CovModel.anis_bounds",
+                     "covmodel/tools.py:set_arg_bounds"],
+          bounded="native run: Stable model, dim 2; one bounds list per parameter, one in-place edit of the caller's list")
+def bounds_setters(ctx, which, via):
+    """'bounds' are among the assignments of the statement: (1) the model owns its bounds -- the caller editing the list
+    it handed over afterwards is not an assignment; (2) after a bounds assignment the current value lies inside the new
+    bounds (moved there as `set_arg_bounds` documents) or the assignment is rejected -- a model never HOLDS a value
+    outside its bounds"""
+    from gsvc import symrun as _sr
+    with _sr.native():
+        m = _quiet(gs.Stable, dim=2, var=1.0, len_scale=1.0, nugget=1.0, anis=1.0, alpha=1.0)
+        new = [2.0, 5.0, "cc"] if which != "alpha" else [1.5, 2.0, "cc"]
+        mine = list(new)
+        try:
+            if via == "property":
+                setattr(m, which + "_bounds", mine)
+            else:
+                m.set_arg_bounds(**{which: mine})
+            rejected = False
+        except ValueError:
+            rejected = True
+        cur = np.atleast_1d(getattr(m, which))
+        b = m.arg_bounds[which]
+        inside = rejected or bool(np.all(cur >= b[0]) and np.all(cur <= b[1]))
+        mine[1] = mine[0] - 10.0        # the caller re-uses its list: lower > upper would be invalid bounds
+        owned = rejected or list(m.arg_bounds[which]) == new
+    ctx.ensure("bounds-owned-by-the-model", owned)
+    ctx.ensure("current-value-inside-the-new-bounds-or-rejected", inside)
